@@ -15,8 +15,8 @@ ASSUMPTIONS = ['regions have unique ids; outlines have at least 3 points, except
                'termination is decided as bounded progress: traced line events inside the sorter modules stay below STEP_BUDGET(n); a hang inside a binary dependency would show as the wall-clock watchdog (inconclusive)',
                'geometry tolerance: boundaries within 1e-6 px of each other (Hausdorff distance) and equal area (de-skew rotates there and back in float64); GEOS overlay operations are not used because they are unreliable for nearly coincident polygons']
 N = {'quick': 1500, 'thorough': 60000}
-CLASSES = ['grid', 'columns', 'overlap', 'identical', 'degenerate', 'poly', 'nested', 'empty_or_single', 'overlap_slanted', 'grid_slanted', 'line_outline', 'many_overlapping']
-REQUIRED = ['layouts_without_a_page_size', 'pages_of_more_than_1000_regions', 'pages_of_marginalia_only', 'line_ids:none', 'line_ids:repeated', 'pages_with_a_one_or_two_point_outline', 'smart_runs', 'naive_runs', 'deskewed_pages', 'decouple_calls', 'regions_compared']
+CLASSES = ['grid', 'columns', 'overlap', 'identical', 'degenerate', 'poly', 'nested', 'empty_or_single', 'overlap_slanted', 'grid_slanted', 'line_outline', 'many_overlapping', 'spiral']
+REQUIRED = ['long_lived_sorter_reused', 'spiral_pages', 'layouts_without_a_page_size', 'pages_of_more_than_1000_regions', 'pages_of_marginalia_only', 'line_ids:none', 'line_ids:repeated', 'pages_with_a_one_or_two_point_outline', 'smart_runs', 'naive_runs', 'deskewed_pages', 'decouple_calls', 'regions_compared']
 
 
 def STEP_BUDGET(n):
@@ -28,6 +28,26 @@ class BudgetExceeded(BaseException):
     pass
 
 
+def spiral(k, size=60000.0, frac=0.2, gap=0.03):
+    """k regions winding inwards: a header, a left column, a footer and a right column are peeled off the remaining box in turn, each taking a fifth of it
+    (a deeply nested page: every division splits off exactly one region)"""
+    x0, y0, x1, y1 = 0.0, 0.0, size, size
+    out = []
+    for j in range(k - 1):
+        h, w = (y1 - y0) * frac, (x1 - x0) * frac
+        gh, gw = (y1 - y0) * gap, (x1 - x0) * gap
+        if j % 4 == 0:
+            out.append([[x0, y0], [x1, y0], [x1, y0 + h], [x0, y0 + h]]); y0 += h + gh
+        elif j % 4 == 1:
+            out.append([[x0, y0], [x0 + w, y0], [x0 + w, y1], [x0, y1]]); x0 += w + gw
+        elif j % 4 == 2:
+            out.append([[x0, y1 - h], [x1, y1 - h], [x1, y1], [x0, y1]]); y1 -= h + gh
+        else:
+            out.append([[x1 - w, y0], [x1, y0], [x1, y1], [x1 - w, y1]]); x1 -= w + gw
+    out.append([[x0, y0], [x1, y0], [x1, y1], [x0, y1]])
+    return out
+
+
 def setup(ctx):
     from pero_ocr.core import layout
     from pero_ocr.layout_engines import smart_sorter, naive_sorter
@@ -35,6 +55,7 @@ def setup(ctx):
     ctx.layout, ctx.ss, ctx.ns = layout, smart_sorter, naive_sorter
     ctx.files = {smart_sorter.__file__, naive_sorter.__file__}
     ctx.decouples = [0]
+    ctx.long_lived, ctx.imgs = {}, {}
 
     def mk(f):
         def w(self):
@@ -58,9 +79,14 @@ def gen(rng, i, ctx):
         # more than a thousand regions that all overlap each other (a page of stacked stamps / table cells); one in eight, otherwise 20-60 of them
         n = int(rng.choice([1050, 1200])) if (i // len(CLASSES)) % 8 == 0 else int(rng.integers(20, 60))
         slanted = False
+    sp = spiral(int(rng.integers(40, 64))) if cls == 'spiral' else None
+    if sp is not None:
+        n, slanted = len(sp), False
     regs = []
     for k in range(n):
-        if cls == 'many_overlapping':
+        if cls == 'spiral':
+            poly = sp[k]
+        elif cls == 'many_overlapping':
             poly = box(10 + k, 10 + k, 1200, 1500)
         elif cls.startswith('grid'):
             c, r = k % 3, k // 3
@@ -111,7 +137,7 @@ def gen(rng, i, ctx):
     order = list(range(n))
     rng.shuffle(order)
     regs = [regs[k] for k in order]
-    return {'cls': cls, 'regions': regs, 'fake_intersection': float(rng.choice([0.0, 0.05, 0.1, 0.3, 0.5])),
+    return {'cls': cls, 'regions': regs, 'fake_intersection': float(rng.choice([0.0, 0.05, 0.1, 0.3, 0.5])) if cls != 'spiral' else float(rng.choice([0.0, 0.05])),
             'width_denominator': int(rng.choice([1, 2, 10, 100, 1500])), 'int_coords': bool(rng.random() < 0.3), 'line_ids': scheme}
 
 
@@ -173,7 +199,10 @@ def check(case, mon, ctx):
     L = ctx.layout
     cfg = configparser.ConfigParser()
     cfg.read_dict({'S': {'FakeIntersectionParameter': str(case['fake_intersection']), 'ImageWidthDenominator': str(case['width_denominator'])}})
-    img = np.zeros((2000, 1500, 3), np.uint8)
+    # scans of different sizes within one run (the naive sorter derives its clustering distance from the image width)
+    wimg = [1500, 3100, 2200][len(case['regions']) % 3]
+    wimg = max(wimg, 2 * case['width_denominator'])
+    img = ctx.imgs.setdefault(wimg, np.zeros((2000, wimg, 3), np.uint8))
     n = len(case['regions'])
     if n >= 2:
         mon.mark_nontrivial()
@@ -189,6 +218,22 @@ def check(case, mon, ctx):
                 mon.count('deskewed_pages')
         status, out, steps = run_sorter(sorter, img, pl, ctx, STEP_BUDGET(n))
         mon.count(name + '_runs')
+        # history: a sorter object that has sorted other pages (of other sizes) before gives the same order as the fresh one
+        key = (name, case['fake_intersection'], case['width_denominator'])
+        old_sorter = ctx.long_lived.get(key)
+        if old_sorter is None:
+            old_sorter = ctx.long_lived[key] = ctx.ss.SmartRegionSorter(cfg['S']) if name == 'smart' else ctx.ns.NaiveRegionSorter(cfg['S'])
+            # its first page is a thumbnail narrower than the width denominator (the naive sorter refuses it, clustering distance 0); whatever happens there,
+            # the following pages are ordinary ones
+            thumb = L.PageLayout(id='t', page_size=(40, 30))
+            thumb.regions = [L.RegionLayout('a', np.array([[1.0, 1.0], [9.0, 1.0], [9.0, 9.0], [1.0, 9.0]])), L.RegionLayout('b', np.array([[12.0, 1.0], [20.0, 1.0], [20.0, 9.0], [12.0, 9.0]]))]
+            run_sorter(old_sorter, np.zeros((40, max(1, case['width_denominator'] - 1), 3), np.uint8), thumb, ctx, STEP_BUDGET(2))
+        else:
+            mon.count('long_lived_sorter_reused')
+        st2, out2, _ = run_sorter(old_sorter, img, build(L, case), ctx, STEP_BUDGET(n))
+        if status == 'ok' and (st2 != 'ok' or [r.id for r in out2.regions] != [r.id for r in out.regions]):
+            mon.violation('permutation-of-input-regions', {'sorter': name, 'n_regions': n, 'note': 'a sorter that has sorted other pages before gives another result than a fresh one',
+                          'image_width': wimg, 'long_lived': st2 if st2 != 'ok' else [r.id for r in out2.regions][:8], 'fresh': [r.id for r in out.regions][:8]}, mechanism='sorter-history')
         mon.count('decouple_calls', ctx.decouples[0])
         mon.observe_max('line_events_%s_n%02d' % (name, n), steps)
         mon.observe_max('line_events_over_budget_ratio', steps / STEP_BUDGET(n))
@@ -208,6 +253,8 @@ def check(case, mon, ctx):
         mon.count('line_ids:' + case.get('line_ids', 'unique'))
         if n > 1000:
             mon.count('pages_of_more_than_1000_regions')
+        if case['cls'] == 'spiral':
+            mon.count('spiral_pages')
         if tuple(pl.page_size) != (2000, 1500):
             mon.count('layouts_without_a_page_size')
         if n >= 2 and sum(1 for r in case['regions'] if r.get('type') not in ('header', 'footer', 'page-number')) <= 1:
